@@ -5,7 +5,7 @@ from checks.subs_common import take
 
 ALL_ACTS = {"Create", "Activate", "Close", "Service", "Discovery", "ChannelChange", "TimePasses"}
 BASE = dict(NConns=2, NSlots=2, Secure=False, DevChanPerConn=False, DevStaleNonce=False, Acts=ALL_ACTS, ActKinds={"anon"},
-            SvcKinds={"Read", "Write"}, Creds={"good", "bad"}, ExtraToks={0, 8}, MaxDepth=6)
+            SvcKinds={"Read", "Write"}, Creds={"good", "bad"}, ExtraToks={0, 8}, Warm=False, MaxDepth=6)
 ARGS = ("ev", "conn", "tok", "kind", "cred", "g")
 
 
